@@ -35,33 +35,52 @@ def obs_id(idx, ep, t, a):
 
 def obs_space(kind, dtype):
     if kind == "vector":
-        return spaces.Box(0, 2 ** 15, (3,), dtype=dtype)
+        return spaces.Box(0, 2 ** 16 - 1, (3,), dtype=dtype)
     if kind == "image":
-        return spaces.Box(0, 2 ** 15, (1, 3, 3), dtype=dtype)
+        return spaces.Box(0, 2 ** 16 - 1, (1, 3, 3), dtype=dtype)
     if kind == "dict":
-        return spaces.Dict({"vec": spaces.Box(0, 2 ** 15, (2,), dtype=dtype), "img": spaces.Box(0, 2 ** 15, (1, 2, 2), dtype=dtype)})
+        return spaces.Dict({"vec": spaces.Box(0, 2 ** 16 - 1, (2,), dtype=dtype), "img": spaces.Box(0, 2 ** 16 - 1, (1, 2, 2), dtype=dtype)})
     if kind == "tuple":
-        return spaces.Tuple((spaces.Box(0, 2 ** 15, (2,), dtype=dtype), spaces.Box(0, 2 ** 15, (1, 2, 2), dtype=dtype)))
+        return spaces.Tuple((spaces.Box(0, 2 ** 16 - 1, (2,), dtype=dtype), spaces.Box(0, 2 ** 16 - 1, (1, 2, 2), dtype=dtype)))
     raise ValueError(kind)
 
 
-def make_obs(kind, dtype, v):
+POS = 32        # element j (C order) of an observation array holds v * POS + j, so element order is observable
+
+
+def _arr(shape, v, dtype, noncontig):
+    n = int(np.prod(shape))
+    a = (np.arange(n, dtype=np.int64) + int(v) * POS).astype(dtype).reshape(shape)
+    if noncontig:
+        # same logical content, but not C-contiguous in memory (what e.g. np.transpose(frame, (2, 0, 1)) returns)
+        if a.ndim >= 2:
+            perm = tuple(reversed(range(a.ndim)))
+            a = np.ascontiguousarray(a.transpose(perm)).transpose(perm)
+        else:
+            a = np.repeat(a, 2)[::2]
+    return a
+
+
+def make_obs(kind, dtype, v, noncontig=False):
     if kind == "vector":
-        return np.full((3,), v, dtype=dtype)
+        return _arr((3,), v, dtype, noncontig)
     if kind == "image":
-        return np.full((1, 3, 3), v, dtype=dtype)
+        return _arr((1, 3, 3), v, dtype, noncontig)
     if kind == "dict":
-        return {"vec": np.full((2,), v, dtype=dtype), "img": np.full((1, 2, 2), v + 1, dtype=dtype)}
-    return (np.full((2,), v, dtype=dtype), np.full((1, 2, 2), v + 1, dtype=dtype))
+        return {"vec": _arr((2,), v, dtype, noncontig), "img": _arr((1, 2, 2), v + 1, dtype, noncontig)}
+    return (_arr((2,), v, dtype, noncontig), _arr((1, 2, 2), v + 1, dtype, noncontig))
 
 
 def decode_obs(kind, o):
-    """-> id or None (None when the array is not uniform / members disagree)."""
+    """-> id or None (None when the elements are not v*POS + position / members disagree)."""
     def uni(a):
-        a = np.asarray(a).reshape(-1).astype(np.float64)
-        if a.size == 0 or not np.all(a == a[0]) or a[0] != int(a[0]):
+        a = np.asarray(a).astype(np.float64).reshape(-1)
+        if a.size == 0 or a[0] != int(a[0]):
             return None
-        return int(a[0])
+        v = int(a[0]) // POS
+        if not np.array_equal(a, np.arange(a.size) + v * POS):
+            return None
+        return v
     if kind in ("vector", "image"):
         return uni(o)
     if kind == "dict":
@@ -121,7 +140,8 @@ class ScriptedEnv(ParallelEnv):
 
     # -- episode logic
     def _obs(self, agents):
-        return {ag: make_obs(self.kind, self.dtype, obs_id(self.idx, self.ep, self.t, int(ag.split("_")[1]))) for ag in agents}
+        return {ag: make_obs(self.kind, self.dtype, obs_id(self.idx, self.ep, self.t, int(ag.split("_")[1])),
+                             noncontig=bool((self.idx + self.t) % 2)) for ag in agents}
 
     def reset(self, seed=None, options=None):
         if self._just_ended:
